@@ -392,7 +392,7 @@ def run(tier, seed):
     chk = core.Check(PID, tier, seed)
     rd = core.record_dir(PID) if tier == "thorough" else None
     os.environ["VF_RECORD_SKIP"] = r"2f(3[0-9]){8,}"   # array indices of 8+ digits: a 2^32-slot array is refused under ASan's allocation cap only
-    sh = core.parallel(shard_fn, seed=seed, tier=tier, exe=bdir + "/jcdrv", ntrees=16000 if tier == "quick" else 200000)
+    sh = core.parallel(shard_fn, seed=seed, tier=tier, exe=bdir + "/jcdrv", ntrees=64000 if tier == "quick" else 1200000)
     chk.absorb(sh)
     if rd:
         os.environ.pop("VF_RECORD_DIR", None)
